@@ -33,7 +33,9 @@ Definition wasm := list (addr * cinfo).
 Record share_entry := { fs_deployer : addr; fs_withdrawer : addr }.
 Definition registry := list (addr * share_entry).
 
-Record env := { e_collector : addr; e_gov : addr; e_blocked : list addr }.
+(** [e_allowed_once]: getAllowedFees stops at the first AllowedDenoms entry matching a fee coin
+    (generated fact; before the fix: commit every matching entry added the coin again) *)
+Record env := { e_collector : addr; e_gov : addr; e_blocked : list addr; e_allowed_once : bool }.
 
 Fixpoint assoc {V} (l : list (addr * V)) (k : addr) : option V :=
   match l with
@@ -103,11 +105,15 @@ Definition recipients (rl : addr -> option share_entry) (ms : list msg) : list a
 Definition eff_recipients (p : params) (rl : addr -> option share_entry) (ms : list msg) : list addr :=
   if p_enabled p then recipients rl ms else [].
 
-(** getAllowedFees: every fee coin is added once per matching AllowedDenoms entry *)
-Definition allowed_fees (p : params) (fee : coins) : coins :=
+(** getAllowedFees: an empty list allows everything; otherwise a fee coin is added when an entry
+    matches it — once (current code) or once per matching entry (before the fix) *)
+Definition allowed_factor (E : env) (al : list denom) (d : denom) : Z :=
+  if e_allowed_once E then (if mem d al then 1 else 0) else Z.of_nat (count d al).
+
+Definition allowed_fees (E : env) (p : params) (fee : coins) : coins :=
   match p_allowed p with
   | [] => fee
-  | al => map (fun c => (fst c, snd c * Z.of_nat (count (fst c) al))) fee
+  | al => map (fun c => (fst c, snd c * allowed_factor E al (fst c))) fee
   end.
 
 (** govPercent.MulInt(amount).QuoInt64(numPairs).RoundInt() *)
@@ -138,7 +144,7 @@ Definition ante (E : env) (p : params) (R : registry) (b : bank) (t : txin) : op
       let rc := eff_recipients p (reg_lookup R) (t_msgs t) in
       match rc with
       | [] => Some b1
-      | _ => pay_all E b1 rc (fee_pay_logic (allowed_fees p (t_fee t)) (p_share p) (length rc))
+      | _ => pay_all E b1 rc (fee_pay_logic (allowed_fees E p (t_fee t)) (p_share p) (length rc))
       end
   end.
 
